@@ -372,7 +372,10 @@ def _r3_planned_evidence(ctx, rep) -> None:
         # evidence (recovery then starts the first task - unplanned, the open finding above), or (b) StartStage's duplicate test
         # for a RUNNING stage looks at the evidence too (re-plan when it is missing).
         from ..dom import raw_conditions_at
-        ignores = [r for r in ast.walk(sir.node) if isinstance(r, ast.Return) and r.value is None and any("stage.status == WorkflowStatus.RUNNING" in norm(t) and tr for t, tr in raw_conditions_at(sir.node, r))]
+        from ..dom import conditions_at as _ca3
+        ignores = [r for r in ast.walk(sir.node) if isinstance(r, ast.Return) and r.value is None and ("stage.status == WorkflowStatus.RUNNING", True) in _ca3(sir.node, r)]
+        if not ignores:
+            raise AnalysisError("_start_if_ready: no 'already RUNNING - ignore' return found")
         handler_looks = any(ev_attr in norm(t) for r in ignores for t, tr in raw_conditions_at(sir.node, r)) or any(
             isinstance(a, ast.Assign) and norm(a.targets[0]) in ("has_tasks", "planned") and ev_attr in norm(a.value) for a in ast.walk(sir.node))
         survivable = bool(before_claim) or handler_looks
